@@ -33,7 +33,7 @@ main(void)
 	uint32_t off, d0;
 	int i, eq;
 #ifdef NATIVE_REPLAY
-	memset(c, 0, sizeof *c);
+	NATIVE_FILL(c, sizeof *c);
 #endif
 	off = ND_U32();
 	ASSUME(off < sizeof t0_datablock - MAXOID - 1);
